@@ -67,6 +67,12 @@ static void engine_run(void) {
 		use_ctx(i);
 		/* this context's lines go to its own buffer */
 		tr_buf = cbuf[i]; tr_len = clen[i]; tr_cap = ccap[i];
+		if (!strcmp(tok[2], "FINI")) {
+			/* finalise this context now; the others keep computing */
+			int rc = core_clean();
+			inited[i] = 0;
+			tr_printf("FINI rc=%d\n", rc != RLC_OK);
+		} else
 		cs_step(tok + 2, n - 2);
 		cbuf[i] = tr_buf; clen[i] = tr_len; ccap[i] = tr_cap;
 	}
